@@ -128,7 +128,8 @@ pub fn finish_sweep(prop: &mut dyn Prop, tier: Tier, rr: &RunResult) -> i32 {
         "distinct_nontrivial": rr.nontrivial,
         "rule": prop.rule(),
         "samples": rr.samples,
-        "exhaustive": prop.exhaustive(),
+        "exhaustive": prop.exhaustive() && !rr.aborted_early,
+        "aborted_after_too_many_crashing_cases": rr.aborted_early,
         "cases_in_space": rr.n_cases,
         "distinct_outcome_classes": rr.classes.len(),
         "outcome_classes": top(&rr.classes, 300),
